@@ -864,26 +864,19 @@ pub async fn drive(case: &Case) -> Outcome {
             } else if !completed || !pending.is_empty() {
                 let hs = l.handshaked_at;
                 let clause = if hs[0].is_none() || hs[1].is_none() { "liveness-handshake" } else { "liveness-transfer" };
-                // One failure mode gets a site of its own, so that it can be listed without hiding any other stall: every
-                // pending operation is a writer's flush/shutdown whose peer reader has already read the whole stream to
-                // EOF, while a bottleneck link still holds a backlog of more than a second at the cap, long after the
-                // application stopped writing — the data arrived, its acknowledgements are never honoured, the endpoint
-                // keeps retransmitting at link rate.
+                // One failure mode gets a site of its own, so that it can be listed without hiding any other stall:
+                // congestion collapse on a slow link. During the last 30 virtual seconds before the cap (300 s; the whole
+                // workload needs at most ~105 s of link time at the slowest rate drawn) an endpoint still offers a
+                // bottleneck link more than half of what it can carry, i.e. it is flooding it with retransmissions long
+                // after the applications handed over their last byte. A stream that merely stalls (nothing but an
+                // occasional probe is sent) never shows this.
                 let site = {
-                    let now = Instant::now();
-                    let writer_delivered = |p: &String| -> Option<usize> {
-                        let (side, rest) = p.split_once('.')?;
-                        let idx = rest.strip_prefix('w')?;
-                        let (peer, dir) = if side == "c" { ("s", crate::net::C2S) } else { ("c", crate::net::S2C) };
-                        l.finished.get(&format!("{peer}.r{idx}")).filter(|(_, ok, _)| *ok).map(|_| dir)
-                    };
-                    let dirs: Vec<Option<usize>> = pending.iter().map(writer_delivered).collect();
+                    let from = completed_at.saturating_sub(30_000);
                     let saturated = |dir: usize| {
-                        case.net.bandwidth > 0
-                            && g.link_free_at[dir].is_some_and(|f| f.saturating_duration_since(now) > Duration::from_secs(1))
+                        let offered: u64 = g.log.iter().filter(|e| e.dir == dir && e.at_ms >= from).map(|e| e.len as u64).sum();
+                        case.net.bandwidth > 0 && completed_at >= 120_000 && offered >= case.net.bandwidth as u64 * 30_000 / 2
                     };
-                    // (the acknowledgements of a writer in the other direction cross the same saturated queue)
-                    if !pending.is_empty() && dirs.iter().all(|d| d.is_some()) && (saturated(0) || saturated(1)) { "delivered-but-unacked:bottleneck-saturated" } else { "" }
+                    if !pending.is_empty() && (saturated(0) || saturated(1)) { "bottleneck-saturated-at-cap" } else { "" }
                 };
                 out.violate(clause, site, format!("bounded faults (last fired at {last_fault} ms) but at {completed_at} ms still pending: {pending:?}; failed: {failed:?}; handshaked_at {hs:?}"), completed_at);
             } else if !failed.is_empty() {
